@@ -239,15 +239,22 @@ def run(ctx):
             sess_bad.append((job, again[0]))
     known_sess = 0
     for job, r in sorted(sess_bad, key=lambda x: len(x[0][0]))[:]:
-        # a silent server after an edit can be the known incremental-parser panic: ask the library
-        if r.get("after_edits"):
+        # a silent server after an edit can be the known weakness of the incremental parser: either update itself panics
+        # or it leaves a tree that does not fit the tokens (both exactly as the model of the pinned algorithm predicts) and a
+        # handler then indexes out of bounds.  It counts as known only if the SAME final text, opened freshly, answers everything.
+        if r.get("after_edits") and judge and known_listed:
             line = c01.hist_line(job[0], [[e] for e in job[1]])
             a = common.run_lines(os.path.join(bindir, "dump_hist"), [line])[0]
-            b = common.run_lines(judge, [line])[0] if judge else a
-            if any(p[0] == 1 for p in c01.parse_impl(a) if p[0] != "init") and a.split()[:1] == b.split()[:1] and \
-               [p[0] for p in c01.parse_impl(a)] == [p[0] for p in c01.parse_model(b)] and known_listed:
-                known_sess += 1
-                continue
+            b = common.run_lines(judge, [line])[0]
+            st, _ = c01.judge_history(c01.parse_impl(a), c01.parse_model(b))
+            if st == "known":
+                cur = job[0]
+                for cs, ce, ins in job[1]:
+                    cur = editgen.apply_change(cur, cs, ce, ins)
+                fresh = session(exe, cur, [], job[2], timeout=40.0)
+                if fresh.get("ok"):
+                    known_sess += 1
+                    continue
         if len([1 for v in ctx.violations]) < 4:
             ctx.violation(dict(kind="oracle", property="C02", what=r.get("problem"), text=job[0], edits=job[1], seed=job[2],
                                last_text=r.get("text"), method=r.get("method"), position=r.get("position")))
